@@ -17,12 +17,15 @@ WATCHDOG = {"quick": 900, "thorough": 3000}
 REL = 1e-9
 
 
+_PROBS = {}
+
+
 def cases(ctx):
     for fam in ("DTLZI", "DTLZII", "DTLZIII", "DTLZIV"):
         for m in range(2, 7):
-            for rep in range(ctx.pick(4, 400)):
+            for rep in range(ctx.pick(20, 600)):
                 yield "dtlz", {"family": fam, "m": m, "seed": ctx.subseed(fam, m, rep), "points": ctx.pick(150, 400)}
-    for rep in range(ctx.pick(8, 800)):
+    for rep in range(ctx.pick(40, 1600)):
         yield "zdt1", {"seed": ctx.subseed("z", rep), "points": ctx.pick(300, 600)}
         yield "biobj", {"seed": ctx.subseed("b", rep), "points": ctx.pick(300, 600)}
 
@@ -100,7 +103,9 @@ def run_case(ctx, name, params):
             else:
                 k = 10
                 n = m + 9
-            prob = hooks.tame(getattr(bp, fam)(dimension=n, m=m))
+            prob = _PROBS.get((fam, n, m))
+            if prob is None:
+                prob = _PROBS[(fam, n, m)] = hooks.tame(getattr(bp, fam)(dimension=n, m=m))
             dist_mode = r.choice(["rand", "rand", "half", "edge"])
             x = [posval(r, fam) for _ in range(m - 1)]
             for _j in range(k):
